@@ -39,12 +39,14 @@ def norm(s):
     return re.sub(r"\s+", "", s)
 
 
-def extract(op, cfg, arity=0):
+def extract(op, cfg, arity=0, interfere=False):
     exp = os.path.join(BUILD, "expand", cfg, "expanded.rs")
     lab = os.path.join(BUILD, "expand", "on", "expanded.rs")
     cmd = [WEAVER, "--op", op, "--expanded", exp, "--labels-from", lab]
     if arity:
         cmd += ["--arity", str(arity)]
+    if interfere:
+        cmd += ["--interfere=1"]
     p = subprocess.run(cmd, capture_output=True, text=True)
     if p.returncode != 0:
         raise WeaveError(f"weaver failed for {op}/{cfg}: {p.stderr.strip()}")
@@ -390,7 +392,7 @@ def weave(op_file, cfg):
     if not m:
         raise WeaveError(f"{tpath}: no //@op directive")
     op, arity = m.group(1), int(m.group(2) or 0)
-    ex = extract(op, cfg, arity)
+    ex = extract(op, cfg, arity, interfere=bool(re.search(r"^//@interfere", text, re.M)))
     handlers = {h["label"]: h for h in ex["handlers"]}
     heap = (re.search(r"^//@heap\s+(.+)$", text, re.M) or [None, "Heap"])[1].strip()
     tp = (re.search(r"^//@tp\s+(.+)$", text, re.M) or [None, ""])[1].strip()
@@ -399,6 +401,7 @@ def weave(op_file, cfg):
     parts = [(a, f"{b} {c}".strip()) for a, b, c in re.findall(r"^//@invpart\s+(\w+)\s+(@C\d+(?:,C\d+)*)\s*(.*)$", text, re.M)]
     tokens = dict((a, b.strip()) for a, b in re.findall(r"^//@token\s+(\w+)\s*=>\s*(.+)$", text, re.M))
     ignores = dict((a, b) for a, b in re.findall(r"^//@ignore\s+(\w+)\s*=\s*(.*)$", text, re.M))
+    skips = set(sum((x.split() for x in re.findall(r"^//@skip[ \t]+(.+)$", text, re.M)), []))
     nogate = set(sum((x.split() for x in re.findall(r"^//@nogate[ \t]+(.+)$", text, re.M)), []))
     et = re.search(r"^//@extratag[ \t]+(@C\d+(?:,C\d+)*.*)$", text, re.M)
     extratag = et.group(1).strip() if et else "@C04 operator-specific side condition of the call"
@@ -406,8 +409,9 @@ def weave(op_file, cfg):
     text, invs = take_invariants(text)
     for pi, (name, _) in enumerate(parts):
         text = re.sub(r"\$PART_" + name + r"\b", f"{pi} /*{name}*/", text)
-    check_gated_calls(text)
-    text = add_unchecked_twins(text)
+    if not re.search(r"^//@interfere", text, re.M):   # profile T has no gated calls (all receivers are //@nogate)
+        check_gated_calls(text)
+        text = add_unchecked_twins(text)
     text = expand_gates_macro(text)
     text = expand_inv_macro(text, parts)
     invs = {k: expand_inv_macro(expand_gates_macro(v), parts) for k, v in invs.items()}
@@ -441,7 +445,7 @@ def weave(op_file, cfg):
         ind = mm.group(1)
         return f"{ind}/* ---- extracted from /repo/src/{op}.rs, closure `{lab}` ({cfg}) ---- */\n" + "\n".join(ind + l for l in body.split("\n")) + f"\n{ind}/* ---- end of extracted body ---- */"
     text = re.sub(r'^([ \t]*)BODY!\("([^"]+)"\);?', hole, text, flags=re.M)
-    missing = set(handlers) - used
+    missing = set(handlers) - used - skips
     if missing:
         raise WeaveError(f"closures without a contract: {sorted(missing)} (closure structure changed)")
     if "BODY!(" in text or "__inv!(" in text:
